@@ -1,6 +1,7 @@
 (** * C08 — copy-on-write: a write through make_mut is never seen through another handle.  Property theorems only. *)
 From Coq Require Import NArith List Bool Arith.
 From TV Require Import Layout SrcFacts Conc ConcProofs Mech MechProofs MechLog MechProps Extracted.
+From TV Require Import ConcX SchedCases SchedProofs.
 Import ListNotations.
 Open Scope N_scope.
 
@@ -52,7 +53,16 @@ Proof. vm_compute. reflexivity. Qed.
 Theorem C08_functions_are_the_modelled_ones : Extracted.cow_forms_ok = true.
 Proof. reflexivity. Qed.
 
+(** The schedule stream drives real threads of the crate - make_mut among the calls - through label streams filtered by
+    the machine and compares every step.  make_mut runs the uniqueness test and then either hands out exclusive access
+    or clones the value and gives the handle up: the two programs of unwrap_or_clone.  Whatever the generator produces,
+    what the machine accepts is one of the executions [ConcXProofs.xsafe] is about. *)
+Theorem C08_every_schedule_of_the_stream_is_covered :
+  forall fuel cow ls, bad (fst (fst (run_labels Extracted.count_progs fuel cow xinit ls))) = false.
+Proof. exact sched_stream_is_covered. Qed.
+
 Check C08_make_mut_is_copy_on_write.
 Print Assumptions C08_make_mut_is_copy_on_write.
 Print Assumptions C08_cow_is_race_free.
 Print Assumptions C08_functions_are_the_modelled_ones.
+Print Assumptions C08_every_schedule_of_the_stream_is_covered.
